@@ -30,7 +30,7 @@ var FamilyNames = []string{
 	"self", "wide-kids", "wide-filters", "deep-array", "deep-dict", "deep-content",
 	"acroform-loop", "xobject-loop", "type3-loop", "action-chain", "pattern-loop",
 	"parent-loop", "contents-array", "colorspace-chain", "huge-offsets",
-	"nest-function", "nest-action", "nest-colorspace", "presteps-chain", "objstm-filter", "objstm-offsets", "xref-dct", "xref-index-sum", "cmap-wide", "catalog-pages",
+	"nest-function", "nest-action", "nest-colorspace", "presteps-chain", "objstm-filter", "objstm-offsets", "xref-dct", "objstm-dct", "xref-index-sum", "cmap-wide", "catalog-pages",
 }
 
 // wiringFamily builds a large wiring of one of the model's walkers and
@@ -472,6 +472,8 @@ func (fam *Family) build() ([]byte, error) {
 		return fam.buildObjStmOffsets(n), nil
 	case "xref-dct":
 		return fam.buildXRefDCT(n), nil
+	case "objstm-dct":
+		return fam.buildObjStmDCT(n), nil
 	case "xref-index-sum":
 		return fam.buildXRefIndexSum(n), nil
 	case "cmap-wide":
@@ -683,6 +685,28 @@ func (fam *Family) buildXRefDCT(n int) []byte {
 	size := []int{5, 1, 40, 1000}[n%4]
 	a.stream(9, fmt.Sprintf("/Type /XRef /Size %d /W [1 2 1] /Root 1 0 R %s", size, filter), "", jp)
 	return a.finish(p)
+}
+
+// buildObjStmDCT: an object stream behind /DCTDecode that claims no members
+// (/N 0): opening the container succeeds, the member the cross-reference
+// stream promises is not found.  The decoder (a goroutine of its own, with
+// most of the image still to deliver) must be gone when Get returns.
+func (fam *Family) buildObjStmDCT(n int) []byte {
+	a := newAsm("1.7")
+	a.obj(1, "<< /Type /Catalog /Pages 2 0 R >>")
+	a.obj(2, "<< /Type /Pages /Kids [3 0 R] /Count 1 >>")
+	a.obj(3, "<< /Type /Page /Parent 2 0 R /MediaBox [0 0 100 100] /Resources << >> >>")
+	ents := []xent{{num: 0, typ: 0}, {num: 1, typ: 1, off: a.offs[1]}, {num: 2, typ: 1, off: a.offs[2]}, {num: 3, typ: 1, off: a.offs[3]}}
+	jp := testJPEG(64+8*(n%5), 64, n%2 == 1)
+	filter := "/Filter /DCTDecode"
+	if fam.Cyc {
+		jp = hexN(jp, 1)
+		filter = "/Filter [/ASCIIHexDecode /DCTDecode]"
+	}
+	a.stream(10, fmt.Sprintf("/Type /ObjStm /N 0 /First %d %s", []int{0, 1, 100}[n%3], filter), "", jp)
+	ents = append(ents, xent{num: 10, typ: 1, off: a.offs[10]}, xent{num: 20, typ: 2, stm: 10, idx: 0}, xent{num: 21, typ: 2, stm: 10, idx: 1})
+	sx := a.xrefStream(9, ents, "/Root 1 0 R", fam.XS)
+	return a.finish(sx)
 }
 
 // buildObjStmOffsets: an object stream whose header pairs give offsets at
